@@ -7,7 +7,9 @@
      model Sq with Shape: side; area() = side * side                       (inherits describe)
      class Rect with Shape, Tagged: w, h = 2; area(); describe() OVERRIDDEN (prints 8, area() + 100);
                                     grow(mut self, k): self.w = self.w + k; self.h += 1;  twice() = area() * 2
-     class Base: v; getv(); name() = 1      class Derived extends Base: extra; name() = 2 (override); both() = getv() + extra
+     trait HasV: getv() abstract; vplus() default = getv() + 1000
+     class Base: v; getv(); name() = 1      class Derived extends Base with HasV: extra; name() = 2 (override); both() = getv() + extra
+                                            (HasV.getv is satisfied only by the method inherited from Base)
      model Q2: p: Sq, z
    A program binds one value of each type, applies a short sequence of operations (method calls with side-effecting
    arguments, `mut self` calls, plain / compound / nested field assignment, reads), then dumps every field and method
@@ -34,7 +36,10 @@ M(n, rk, ps, ret, body) == [name |-> n, recv |-> rk, params |-> ps, ret |-> ret,
 Helper == [name |-> "h", params |-> <<Par("a")>>, ret |-> "int", body |-> <<SPrint(EId("a")), SRet(EBin("+", EId("a"), EInt(1)))>>]
 Traits == << [name |-> "Shape", methods |-> << M("area", "self", <<>>, "int", <<>>),
                                                M("describe", "self", <<>>, "int", <<SPrint(EInt(7)), SRet(EBin("+", EM(Self, "area", <<>>), EInt(1)))>>) >>],
-             [name |-> "Tagged", methods |-> << M("tag", "self", <<>>, "int", <<SRet(EInt(5))>>) >>] >>
+             [name |-> "Tagged", methods |-> << M("tag", "self", <<>>, "int", <<SRet(EInt(5))>>) >>],
+             \* HasV.getv is required; Derived satisfies it only through the method it inherits from Base
+             [name |-> "HasV", methods |-> << M("getv", "self", <<>>, "int", <<>>),
+                                              M("vplus", "self", <<>>, "int", <<SRet(EBin("+", EM(Self, "getv", <<>>), EInt(1000)))>>) >>] >>
 F(n, t) == [name |-> n, ty |-> t]
 Types == <<
   [name |-> "Sq", kind |-> "model", parent |-> "", traits |-> <<"Shape">>, fields |-> <<F("side", "int")>>, defaults |-> <<>>,
@@ -47,7 +52,7 @@ Types == <<
                   M("twice", "self", <<>>, "int", <<SRet(EBin("*", EM(Self, "area", <<>>), EInt(2)))>>) >>],
   [name |-> "Base", kind |-> "class", parent |-> "", traits |-> <<>>, fields |-> <<F("v", "int")>>, defaults |-> <<>>,
    methods |-> << M("getv", "self", <<>>, "int", <<SRet(EF(Self, "v"))>>), M("name", "self", <<>>, "int", <<SRet(EInt(1))>>) >>],
-  [name |-> "Derived", kind |-> "class", parent |-> "Base", traits |-> <<>>, fields |-> <<F("extra", "int")>>, defaults |-> <<>>,
+  [name |-> "Derived", kind |-> "class", parent |-> "Base", traits |-> <<"HasV">>, fields |-> <<F("extra", "int")>>, defaults |-> <<>>,
    methods |-> << M("name", "self", <<>>, "int", <<SRet(EInt(2))>>),
                   M("both", "self", <<>>, "int", <<SRet(EBin("+", EM(Self, "getv", <<>>), EF(Self, "extra")))>>) >>],
   [name |-> "Q2", kind |-> "model", parent |-> "", traits |-> <<>>, fields |-> <<F("p", "Sq"), F("z", "int")>>, defaults |-> <<>>, methods |-> <<>>] >>
@@ -66,7 +71,7 @@ IntE == {EInt(5), H(EInt(4)), EF(VR, "w"), EM(VS, "area", <<>>)}
 Menu ==
   {<<SPrint(EM(o, m, <<>>))>> : o \in {VS, VR}, m \in {"area", "describe"}} \cup
   {<<SPrint(EM(VR, m, <<>>))>> : m \in {"tag", "twice"}} \cup
-  {<<SPrint(EM(VD, m, <<>>))>> : m \in {"getv", "name", "both"}} \cup
+  {<<SPrint(EM(VD, m, <<>>))>> : m \in {"getv", "name", "both", "vplus"}} \cup
   {<<SPrint(EM(EF(VQ, "p"), m, <<>>))>> : m \in {"area", "describe"}} \cup
   {<<SExpr(EM(VR, "grow", <<e>>))>> : e \in IntE} \cup
   {<<SSetF(EF(VR, f), o, e)>> : f \in {"w", "h"}, o \in {"", "+", "*", "-"}, e \in IntE} \cup
